@@ -7,9 +7,11 @@ import (
 	"encoding/json"
 	"fmt"
 	"os"
+	"runtime"
 	"runtime/debug"
 	"runtime/pprof"
 	"strconv"
+	"strings"
 
 	"verif/harness/mon"
 )
@@ -92,6 +94,13 @@ func realMain() int {
 		}
 		if v.Seed != 0 {
 			seed = v.Seed
+		}
+		if cp := v.Case.Args["child_process"]; strings.HasPrefix(cp, "GOMAXPROCS=") {
+			// the violation was seen in a child process with this processor count
+			var n int
+			if fmt.Sscanf(cp, "GOMAXPROCS=%d", &n); n > 0 {
+				runtime.GOMAXPROCS(n)
+			}
 		}
 		r := mon.NewRun(m.ID, "quick", seed, dir)
 		r.Replay = true
